@@ -97,11 +97,16 @@ def one_round(rnd):
         got = ex.load_raw(st, addr, nb)
         want = plain_load(shadow, addr, nb)
         s = z3.Solver()
-        s.set('timeout', 60000)
+        s.set('timeout', 20000)
         for h in hyps:
             s.add(h)
         s.add(got != want)
         r = s.check()
+        if r == z3.unknown:
+            # z3's default tactic gives up on some store chains with a symbolic index: ask the portfolio (z3-new, cvc5)
+            from vf import smt
+            res = smt.discharge([smt.Ob('aliascheck', hyps, got == want)], timeout_s=240)
+            r = {'discharged': z3.unsat, 'refuted': z3.sat}.get(res[0][1], z3.unknown)
         checked += 1
         if r != z3.unsat:
             bad.append((str(addr), str(r)))
